@@ -73,6 +73,12 @@ class Leaf:
                 args.append('callback = |lex| (cb%d(lex) + 1) * 2 / 2 - 1' % self.cb)
             elif form == 4 and self.cb == 1:
                 args.append('callback = |lex| (!cb%d(lex)) == false' % self.cb)
+            elif form == 6 and self.cb in (9, 12):
+                # inline closure that leaves early with `?` (D17: the body is pasted into a function of the generated code)
+                args.append('callback = |lex| { let v = cb%d(lex)?; Some(v) }' % self.cb)
+            elif form == 6:
+                # ... or with `return` (same value as cbN: the first branch is never taken)
+                args.append('callback = |lex| { if lex.slice().len() > 100000 { return cb%d(lex); } cb%d(lex) }' % (self.cb, self.cb))
             elif form == 5 and self.cb == 3:
                 args.append('callback = logos::skip')                   # the function the library itself provides
             elif form == 4:
@@ -422,6 +428,12 @@ def fixed_corpus():
     # configured: the error callback has to see the span of the rejected match
     out.append(Def([L('regex', '[0-9]+', cb=25), L('regex', '[0-9]+\\.[0-9]+', cb=1), L('regex', '[a-z]+', cb=26), L('regex', '[a-z]+-=', cb=9), L('regex', '[A-Z]+y?', cb=12, value=True),
                     L('skip', ' +')], errcb=True, origin='fixed:errcb-fallback'))
+    # inline closures that leave early (`return`, `?`): D17
+    dd = Def([L('regex', 'a+', cb=11, value=True), L('regex', 'b+', cb=1), L('regex', 'c+', cb=9), L('regex', 'd+', cb=12, value=True), L('regex', 'e+', cb=3), L('skip', ' +')],
+             origin='fixed:closure-early-exit')
+    for lf in dd.leaves:
+        lf.cb_form = 6
+    out.append(dd)
     # inline closures whose body begins with a group: `(a + 1) * 2`, `(!x) == y`, a block
     dd = Def([L('regex', 'a+', cb=11, value=True), L('regex', 'b+', cb=1), L('regex', 'c+', cb=21, value=True), L('regex', 'd+', cb=9), L('regex', 'e+', cb=12, value=True), L('skip', ' +')],
              origin='fixed:closure-bodies')
